@@ -1,0 +1,14 @@
+//go:build verif
+
+package redisemu
+
+// VerifHook, when set by a verification harness, is called at the named schedule / trace
+// points below.  It may block (the harness uses that to pause one client at a chosen point).
+// Compiled only with the "verif" build tag; see verif_off.go for the no-op used otherwise.
+var VerifHook func(point string, id int64, arg string)
+
+func verifPoint(point string, id int64, arg string) {
+	if h := VerifHook; h != nil {
+		h(point, id, arg)
+	}
+}
